@@ -181,4 +181,151 @@ def binaryExprR : Nat → List (V E) → HRes E
       | .panic => .panic
       | .fuel => .fuel
 
+/-! ## the README calculator
+
+```
+expr = operand % ("*" | "/") % ("+" | "-") => { return tpl.BinaryOp(true, self, (op, x, y) => …) }
+operand = basicLit | unaryExpr
+unaryExpr = "-" operand => { return -(self[1].(float64)) }
+basicLit = INT | FLOAT => { return self.(*tpl.Token).Lit.float! }
+```
+over an abstract number type `α` with operations `Arith α` (no number representation is
+assumed); `num t` is the value of a literal token. -/
+
+structure Arith (α : Type) where
+  add : α → α → α
+  sub : α → α → α
+  mul : α → α → α
+  quo : α → α → α
+  neg : α → α
+
+def kINT : Nat := 5
+def kFLOAT : Nat := 6
+def kADD : Nat := 43
+def kSUB : Nat := 45
+def kMUL : Nat := 42
+def kQUO : Nat := 47
+
+def bExpr : Bytes := [0x65, 0x78, 0x70, 0x72]
+def bOperand : Bytes := [0x6f, 0x70, 0x65, 0x72, 0x61, 0x6e, 0x64]
+def bUnaryExpr : Bytes := [0x75, 0x6e, 0x61, 0x72, 0x79, 0x45, 0x78, 0x70, 0x72]
+def bBasicLit : Bytes := [0x62, 0x61, 0x73, 0x69, 0x63, 0x4c, 0x69, 0x74]
+
+def gMulOp : G := .choice [.tok kMUL [0x2a], .tok kQUO [0x2f]] [true, true]
+def gAddOp : G := .choice [.tok kADD [0x2b], .tok kSUB [0x2d]] [true, true]
+
+/-- The matcher tree `tpl/cl` builds for the calculator grammar (compared with the real one
+by the correspondence run). -/
+def calcEnv : Env :=
+  [ (bExpr, G.listOf (G.listOf (.var bOperand) gMulOp) gAddOp),
+    (bOperand, .choice [.var bBasicLit, .var bUnaryExpr] [true, true]),
+    (bUnaryExpr, .seq [.tok kSUB [0x2d], .var bOperand]),
+    (bBasicLit, .choice [.tok kINT [0x49, 0x4e, 0x54], .tok kFLOAT [0x46, 0x4c, 0x4f, 0x41, 0x54]] [true, true]) ]
+
+/-- The callback of the calculator's `BinaryOp`; `.nil` stands for its `panic("unexpected")` /
+failed `.(float64)` assertion (shown unreachable for matched input by `C30_calc_correct`). -/
+def calcFn (A : Arith α) (toks : List Tok) (o : Nat) (x y : V α) : V α :=
+  match x, y, toks[o]? with
+  | .leaf a, .leaf b, some t =>
+    if t.kind = kADD then .leaf (A.add a b)
+    else if t.kind = kSUB then .leaf (A.sub a b)
+    else if t.kind = kMUL then .leaf (A.mul a b)
+    else if t.kind = kQUO then .leaf (A.quo a b)
+    else .nil
+  | _, _, _ => .nil
+
+/-- The return procedures of the calculator. -/
+def calcProcs (A : Arith α) (num : Tok → α) (toks : List Tok) (name : Bytes) : Option (V α → V α) :=
+  if name = bExpr then
+    some fun v => match v with
+      | .list l => (match binaryOpR (calcFn A toks) 3 l with | .ok r => r | _ => .nil)
+      | _ => .nil
+  else if name = bUnaryExpr then
+    some fun v => match v with
+      | .list [_, .leaf x] => .leaf (A.neg x)
+      | _ => .nil
+  else if name = bBasicLit then
+    some fun v => match v with
+      | .tok i => (match toks[i]? with | some t => .leaf (num t) | none => .nil)
+      | _ => .nil
+  else none
+
+def calcCx (A : Arith α) (num : Tok → α) (toks : List Tok) (fileEnd : Nat) : Cx α :=
+  ⟨calcEnv, toks, fileEnd, calcProcs A num toks⟩
+
+/-- `cl.ParseExpr(text)` of the calculator on the scanned tokens. -/
+def calcParseExpr (A : Arith α) (num : Tok → α) (toks : List Tok) (fileEnd : Nat) : ParseRes α :=
+  parseExprTop (calcCx A num toks fileEnd) (matchBound calcEnv toks.length) bExpr
+
+/-! ### reference: precedence climbing over abstract tokens -/
+
+inductive ATok (α : Type) where
+  | num (a : α)
+  | add | sub | mul | quo
+  | other
+
+def ATok.prec : ATok α → Nat
+  | .add => 1
+  | .sub => 1
+  | .mul => 2
+  | .quo => 2
+  | _ => 0
+
+def ATok.apply (A : Arith α) : ATok α → α → α → α
+  | .add, a, b => A.add a b
+  | .sub, a, b => A.sub a b
+  | .mul, a, b => A.mul a b
+  | .quo, a, b => A.quo a b
+  | _, a, _ => a
+
+/-- Unary level: a number, or `-` applied to a unary. -/
+def pcUnary (A : Arith α) : Nat → List (ATok α) → Option (α × List (ATok α))
+  | 0, _ => none
+  | f + 1, ts =>
+    match ts with
+    | .num a :: r => some (a, r)
+    | .sub :: r =>
+      match pcUnary A f r with
+      | some (v, r') => some (A.neg v, r')
+      | none => none
+    | _ => none
+
+mutual
+/-- `parseExpr(minPrec)`: a unary, then the operator loop. -/
+def pcExpr (A : Arith α) : Nat → Nat → List (ATok α) → Option (α × List (ATok α))
+  | 0, _, _ => none
+  | f + 1, minPrec, ts =>
+    match pcUnary A f ts with
+    | some (lhs, r) => pcLoop A f minPrec lhs r
+    | none => none
+/-- While the next token is a binary operator of precedence ≥ minPrec: parse the right operand
+with `minPrec = prec + 1` (left associativity) and combine. -/
+def pcLoop (A : Arith α) : Nat → Nat → α → List (ATok α) → Option (α × List (ATok α))
+  | 0, _, _, _ => none
+  | f + 1, minPrec, lhs, ts =>
+    match ts with
+    | [] => some (lhs, [])
+    | op :: r =>
+      if op.prec ≥ minPrec ∧ op.prec > 0 then
+        match pcExpr A f (op.prec + 1) r with
+        | some (rhs, r') => pcLoop A f minPrec (op.apply A lhs rhs) r'
+        | none => none
+      else some (lhs, op :: r)
+end
+
+/-- Abstract view of a scanned token. -/
+def abstr (num : Tok → α) (t : Tok) : ATok α :=
+  if t.kind = kINT ∨ t.kind = kFLOAT then .num (num t)
+  else if t.kind = kADD then .add
+  else if t.kind = kSUB then .sub
+  else if t.kind = kMUL then .mul
+  else if t.kind = kQUO then .quo
+  else .other
+
+/-- The reference evaluator on a whole input: value if the input is one expression. -/
+def pcEval (A : Arith α) (ts : List (ATok α)) : Option α :=
+  match pcExpr A (3 * ts.length + 3) 1 ts with
+  | some (v, []) => some v
+  | _ => none
+
 end GopModel.Tpl
